@@ -26,7 +26,7 @@ T = {
          "hence two functions have the same representative exactly when one is the image of the other under the group, and a representative is its own representative. "
          "Proof: walk invariant (minimum over the visited group elements) + coverage: the permutations / masks before each step are pairwise distinct and there are n! / 2^n of them - "
          "kernel-evaluated on the FLIPS/SWAPS tables regenerated from the source (n <= 6), proved for the run-time generators for every n (reflected Gray code; Steinhaus-Johnson-Trotter order, by induction along the generator's recursion) - and a duplicate-free list of n! permutations "
-         "contains them all (one Mathlib module, List.permutations); tie: hooks exposing the sequences reported and actually walked + differential run on results; oracle: independent orbit enumeration.",
+         "contains them all (one Mathlib module, List.permutations); tie: hooks exposing the sequences reported and actually walked + differential run on results (in the quick tier the NPN walk of 8 variables is run on the code and judged by the oracle only - one orbit, one representative, no sampled orbit member smaller, certificate replays; the model follows it in the thorough tier); oracle: independent orbit enumeration.",
          "Trust: as C01; Lemmas/Count.lean imports Mathlib.Data.List.Permutation (axioms still propext, Classical.choice, Quot.sound).",
          "Lean 4 proof (walk invariant + kernel-evaluated Hamiltonicity of the sequences in use + counting) + differential run + orbit oracle", "5 (C04)"),
  "C05": ("Lean theorems: the (perm, mask) rebuilt from best_ind is the group element reached at that index of the walk, so applying it to the input gives the returned table; "
@@ -42,7 +42,7 @@ T = {
          "Trust: as C01; the ROBDD of the theorem is the definition `Robdd.mk` (textbook construction, stated in the file).",
          "Lean 4 proof (explicit ROBDD datatype, canonicity, counting) + differential run + ROBDD oracle", "5 (C07)"),
  "C08": ("Lean theorems: cmp is numeric comparison of the little-endian table value (total order, agrees with equality), the successor step is +1 modulo 2^(2^n) with the returned flag = no wrap, "
-         "including carries across words, the iterator yields the k-th function at step k and then stops, and for equal n the order is the byte order of the fixed-width hex strings (Props/C08Hex.lean); tie: hook verif_next + differential run incl. all-ones low words; oracle: own big-integer arithmetic.",
+         "including carries across words, the iterator yields the k-th function at step k and then stops, the provided Iterator methods (nth, skip, step_by, count, last) select exactly the items of that enumeration, and for equal n the order is the byte order of the fixed-width hex strings (Props/C08Hex.lean); tie: hook verif_next + differential run incl. all-ones low words; oracle: own big-integer arithmetic.",
          "Trust: as C01.", "Lean 4 proof + hook-driven differential run + big-integer oracle", "5 (C08)"),
  "C09": ("Lean theorems: printing has exact width and the digits are the bits MSB first; the parser accepts exactly the strings of the right length made of hex digits whose value fits, and parse(print t) = t; "
          "it never panics and never yields a malformed table; tie: differential run on printed, mutated and arbitrary byte strings (incl. '+', '-', non-ASCII); oracle: reference parser/printer.",
@@ -58,7 +58,7 @@ T = {
          "Trust: as C01.", "Lean 4 proof (BitVec 32) + differential run + truth-table oracle", "5 (C12)"),
  "C13": ("Lean theorems: exclusive-cube value is parity xor flag, ^ and ! are XOR and complement, equality is semantic, enumeration complete; Soes value is OR, | concatenates, conversion tabulates, "
          "is_zero/is_one sound; tie and oracle as C12.", "Trust: as C01.", "Lean 4 proof + differential run + truth-table oracle", "5 (C13)"),
- "C14": ("Lean theorems: simplify preserves the denoted function and returns a cover with no zero cube, no duplicate and no cube implying another; &, |, ! denote AND, OR, NOT for arbitrary operand cube lists; "
+ "C14": ("Lean theorems: simplify preserves the denoted function and returns a cover with no zero cube, no duplicate and no cube implying another; &, |, ! denote AND, OR, NOT for arbitrary operand cube lists, and so do expressions nesting any number of them (induction over the expression); "
          "is_zero exact, is_one sound; Lut<->Sop round trip; tie: differential run on redundant cube lists comparing cube lists exactly; oracle: Lut semantics + structural checker.",
          "Trust: as C01.", "Lean 4 proof + differential run + semantic/structural oracle", "5 (C14)"),
  "C15": ("Lean theorems: the sweep emits positive cubes in increasing order, each at most once, converting back gives the function (loop invariant of the in-place Moebius sweep), the emitted cubes are exactly the monomials whose ANF coefficient is 1 (uniqueness of duplicate-free positive ESOPs + Moebius inversion over GF(2)), equal functions give equal Esops; ^, ! and is_zero/is_one; "
